@@ -1,5 +1,6 @@
 import SkgVerif.Lemmas.SpaceTime
 import SkgVerif.Gen.Tables
+import SkgVerif.Gen.Source
 /-!
 # C14 — space-time experimental variogram = estimator over exactly each cell's pairs
 -/
@@ -100,5 +101,15 @@ theorem C14_source_loop :
     Gen.stGroupLoopLower = ">" ∧ Gen.stGroupLoopUpper = "<=" ∧
     Gen.stGroupLoopIter = "enumerate(zip([0] + list(bins), bins))" ∧
     Gen.stGroupLoopInit = ["np.ones(len(d), dtype=int) * -1"] := by decide
+
+/-- `_calc_diff` (quadruple loop over `xi < xj`, `ti < tj`, entry `|v[xi,ti] − v[xj,tj]|`), `lag_classes` (space-major double loop) and `_get_member` as they are in the source now -/
+theorem C14_source_table : Gen.stTableSource =
+    [
+    ("diff_loops", "xi in range(outer) | xj in range(outer) | ti in range(inner) | tj in range(inner)"),
+    ("diff_entry", "self._diff[xidx][tidx] = np.abs(v[xi, ti] - v[xj, tj])"),
+    ("diff_guards", "xi < xj | ti < tj"),
+    ("cell_loops", "x in range(self.x_lags) | t in range(self.t_lags)"),
+    ("cell_members", "(yield diff_select(x, t).flatten())"),
+    ("member", "return self._diff[np.where(x_idxs)[0]][:, np.where(t_idxs)[0]].flatten()")] := by rfl
 
 end Skg
